@@ -92,8 +92,9 @@ fn main() {
         // harness replay <file containing "case":"…">
         "replay" => {
             let txt = std::fs::read_to_string(&args[2]).unwrap();
-            let key = "\"case\":\"";
-            let i = txt.find(key).expect("no case in replay file") + key.len();
+            let kpos = txt.find("\"case\"").expect("no case in replay file");
+            let colon = txt[kpos..].find(':').unwrap() + kpos;
+            let i = txt[colon..].find('"').unwrap() + colon + 1;
             let j = txt[i..].find('"').unwrap() + i;
             let enc = txt[i..j].replace("\\\\", "\\");
             let case = case::Case::decode(&enc).expect("bad case encoding");
